@@ -59,6 +59,15 @@ def root_cls():
         def getitem_semseg(self, idx, ctx=None):
             return cat.inputs("PAIR", 0)[1]
 
+        def getitem_y(self, idx, ctx=None):
+            return self.getitem_x(idx, ctx)
+
+        def getitem_source(self, idx, ctx=None):
+            return self.getitem_x(idx, ctx)
+
+        def getitem_target(self, idx, ctx=None):
+            return self.getitem_x(idx, ctx)
+
         def getshape_class(self):
             return (3,)
 
@@ -161,6 +170,14 @@ def make_special(name):
         return ModeWrapper(SemsegTransformWrapper(Root("T3"), [
             KDSemsegRandomResize(base_size=(8, 8), ratio=(0.5, 2.0), interpolation="nearest"), KDSemsegRandomCrop(size=4),
             KDSemsegRandomHorizontalFlip(), probe_like_color()], seed=SEED), "x semseg", return_ctx=True), list(range(N))
+    if name == "other_items":
+        from kappadata.wrappers.sample_wrappers import YTransformWrapper, SourceTransformWrapper, TargetTransformWrapper
+        from kappadata.transforms.base.kd_compose_transform import KDComposeTransform
+        P = probe_cls()
+        w = YTransformWrapper(Root("T3"), P(), seed=SEED)
+        w = SourceTransformWrapper(w, KDComposeTransform([P()]), seed=SEED + 1)
+        w = TargetTransformWrapper(w, P(), seed=SEED + 2)
+        return ModeWrapper(w, "y source target", return_ctx=True), list(range(N))
     if name in ("semseg_nested", "semseg_scheduled"):
         from kappadata.wrappers.sample_wrappers.semseg_transform_wrapper import SemsegTransformWrapper
         from kappadata.transforms.semseg import KDSemsegRandomHorizontalFlip, KDSemsegRandomCrop
@@ -191,7 +208,7 @@ def probe_like_color():
     return KDRandomColorJitter(p=0.8, brightness=0.4, contrast=0.4)
 
 
-SPECIALS = ("mix", "mix_p05", "semseg", "semseg_nested", "semseg_scheduled", "byol_multiview", "mugs_multiview", "imagenet_minaug_multiview", "imagenet_minaug_xtransform")
+SPECIALS = ("mix", "mix_p05", "other_items", "semseg", "semseg_nested", "semseg_scheduled", "byol_multiview", "mugs_multiview", "imagenet_minaug_multiview", "imagenet_minaug_xtransform")
 
 
 def histories(n_pos, maxlen=3):
@@ -291,7 +308,7 @@ def task(items):
                           dict(wrapper=wrapper, placement=placement, tspec=tspec), p, expect_distinct=_tensor_out(tspec),
                           maxlen=3 if _tensor_out(tspec) else 2, workers=not sched)
         else:
-            explore_stack(lambda: make_special(it[1]), it[1], dict(special=it[1]), p, expect_distinct=it[1] in ("byol_multiview",),
+            explore_stack(lambda: make_special(it[1]), it[1], dict(special=it[1]), p, expect_distinct=it[1] in ("byol_multiview", "other_items"),
                           workers=it[1] != "semseg_scheduled")
     p.sample(dict(item=[str(x) for x in items[0]], histories="all access sequences of length<=3 x perturbation; workers 1..3"))
     return p
